@@ -39,6 +39,31 @@ type Program struct {
 	Kind string     `json:"kind"`
 	Code [][]string `json:"code"`
 	Sto0 [][]string `json:"sto0"` // storage committed before the transaction: [[key, value], ...] (decimal words)
+	Fill int        `json:"fill"` // the program starts on a stack pre-filled with this many distinct items (a loop prefix the trace omits)
+}
+
+// fillPrefix is code that leaves exactly n distinct items on the stack without ever holding more than max(n, 2):
+// a countdown loop for all but the last four (m-1, ..., 1, 0; the loop needs two spare slots) and four plain pushes.
+func fillPrefix(n int) []byte {
+	var code []byte
+	push2 := func(v int) { code = append(code, byte(vm.PUSH2), byte(v>>8), byte(v)) }
+	m := 0
+	if n > 8 {
+		m = n - 4
+		push2(m - 1)                           // 0: counter
+		code = append(code, byte(vm.JUMPDEST)) // 3: loop
+		code = append(code, byte(vm.DUP1), byte(vm.ISZERO))
+		push2(19)
+		code = append(code, byte(vm.JUMPI))
+		code = append(code, byte(vm.DUP1), byte(vm.PUSH1), 1, byte(vm.SWAP1), byte(vm.SUB)) // [.., c] -> [.., c, c-1]
+		push2(3)
+		code = append(code, byte(vm.JUMP))
+		code = append(code, byte(vm.JUMPDEST)) // 19: done
+	}
+	for i := m; i < n; i++ {
+		push2(2001 + i)
+	}
+	return code
 }
 
 type capture struct {
@@ -52,10 +77,11 @@ type capture struct {
 
 // tracer implements vm.Tracer; it only copies what the interpreter shows it.
 type tracer struct {
-	bal0 [][]string // balances of the known accounts when the first instruction is reached
-	caps []capture
-	keys []common.Hash // storage keys touched by SSTORE / SLOAD, in order of first use
-	seen map[common.Hash]bool
+	skipBelow uint64     // instructions of the stack-filling prefix are not recorded
+	bal0      [][]string // balances of the known accounts when the first instruction is reached
+	caps      []capture
+	keys      []common.Hash // storage keys touched by SSTORE / SLOAD, in order of first use
+	seen      map[common.Hash]bool
 }
 
 func (t *tracer) CaptureStart(from common.Address, to common.Address, call bool, input []byte, gas uint64, value *big.Int) error {
@@ -65,6 +91,9 @@ func (t *tracer) CaptureStart(from common.Address, to common.Address, call bool,
 func (t *tracer) CaptureState(env *vm.EVM, pc uint64, op vm.OpCode, gas, cost uint64, memory *vm.Memory, stack *vm.Stack, contract *vm.Contract, depth int, err error) error {
 	if t.bal0 == nil {
 		t.bal0 = balances(env.StateDB)
+	}
+	if pc < t.skipBelow && err == nil {
+		return nil
 	}
 	c := capture{op: op, pc: pc, cost: cost, err: err}
 	for _, v := range stack.Data() {
@@ -103,7 +132,10 @@ type instr struct {
 }
 
 func compile(p *Program) ([]byte, []instr, error) {
-	var code []byte
+	if p.Fill < 0 || p.Fill > 1024 {
+		return nil, nil, fmt.Errorf("bad fill %d", p.Fill)
+	}
+	code := fillPrefix(p.Fill)
 	var ins []instr
 	for _, c := range p.Code {
 		if len(c) == 0 {
@@ -220,8 +252,8 @@ const gasLimit = uint64(10000000)
 
 // execute deploys the code with the given committed storage (a state that was committed and reopened, so that the
 // slots have an "original" value in the sense of net gas metering) and calls it.
-func execute(code []byte, sto0 [][]string) (t *tracer, st *state.StateDB, err error, panicked string) {
-	t = &tracer{seen: map[common.Hash]bool{}}
+func execute(code []byte, sto0 [][]string, skip int) (t *tracer, st *state.StateDB, err error, panicked string) {
+	t = &tracer{seen: map[common.Hash]bool{}, skipBelow: uint64(skip)}
 	yp := params.Versions[params.YouCurrentVersion]
 	st0, _ := state.New(common.Hash{}, common.Hash{}, common.Hash{}, state.NewDatabase(youdb.NewMemDatabase()))
 	st0.CreateAccount(contractAddr)
@@ -287,7 +319,7 @@ func run(env *drive.Env) error {
 		if err != nil {
 			return fmt.Errorf("behaviour %d: %v", env.T, err)
 		}
-		t, st, xerr, panicked := execute(code, p.Sto0)
+		t, st, xerr, panicked := execute(code, p.Sto0, len(fillPrefix(p.Fill)))
 		if st == nil {
 			return fmt.Errorf("behaviour %d: set-up failed: %v", env.T, xerr)
 		}
@@ -298,6 +330,18 @@ func run(env *drive.Env) error {
 		envv, accts := environment(code)
 		env.Emit(map[string]interface{}{"ev": "Begin", "sto0": sto0, "env": envv, "accts": accts})
 		caps := t.caps
+		if len(caps) > 0 && int(caps[0].pc) < len(fillPrefix(p.Fill)) {
+			// the stack-filling prefix itself was stopped (it never needs more than the items it leaves): report it as the
+			// pseudo instruction FILL, which is valid on every stack
+			msg := "halted while filling the stack"
+			if caps[0].err != nil {
+				msg = caps[0].err.Error()
+			}
+			env.Emit(map[string]interface{}{"ev": "End", "op": "FILL", "b": strs(caps[0].stack), "err": msg, "panic": panicked != "",
+				"mem": []int{}, "sto": [][]string{}, "bal0": [][]string{}, "bal1": [][]string{}, "id": p.Id})
+			p = Program{}
+			continue
+		}
 		// one capture per instruction of a straight-line program; they must be the instructions we compiled
 		for i, c := range caps {
 			if i >= len(ins) || c.op != ins[i].raw || int(c.pc) != ins[i].pc {
@@ -318,6 +362,9 @@ func run(env *drive.Env) error {
 		end := map[string]interface{}{"ev": "End", "op": "NONE", "b": []string{}, "err": "", "mem": []int{}, "sto": [][]string{}, "id": p.Id}
 		if last >= 0 {
 			end["op"] = ins[last].op
+			if ins[last].k != 0 {
+				end["k"] = ins[last].k
+			}
 			end["b"] = strs(caps[last].stack)
 			end["mem"] = bytesToInts(caps[last].mem)
 			if caps[last].err != nil {
@@ -331,6 +378,7 @@ func run(env *drive.Env) error {
 		if xerr != nil && end["err"] == "" {
 			end["err"] = xerr.Error()
 		}
+		end["panic"] = panicked != ""
 		if panicked != "" {
 			end["err"] = "panic: " + panicked
 		}
